@@ -145,4 +145,13 @@ CHECKS["C15"] = {"text": "Proved for every configuration, options, incoming stat
     "note": COMMON_NOTE + " PARTIAL: idempotence of __update at the pause point is a hypothesis of the theorem (validated per run, not proved: the PERT refresh re-reads stale earliest-finish values when a WORKING "
     "task has negative remaining work, so a general proof needs a side condition on the state); the JSON route relies on C16.",
     "technique": "Coq proof (status-independence of every phase, determinism and trace splitting) + per-run validation of the idempotence side condition + model/implementation correspondence on pause+resume + oracle pausing at every step, in memory and through JSON"}
+CHECKS["C13"] = {"text": "Proved for every product that is a forest (flat and nested; no component reached twice), every configuration, options and run: (a) in every snapshot a workplace lists a component exactly "
+    "when the component reports being placed there and no component is listed twice (so at most one workplace); (b),(c),(d) a component is put somewhere only if no component of its assembly has moved in this step, has a "
+    "WORKING task or holds a resource, every component of the assembly comes from nowhere or from an input workplace the target declares, and its size minus 1e-8 is below the free space -- then exactly its assembly moves; "
+    "the moved list of one __allocate never contains a component twice; perform/record do not touch placement; (e) after __update no component of an assembly whose tasks are all FINISHED is placed; (f) in every snapshot "
+    "a task only holds facilities of the workplace where its component is placed; (b) run-level capacity bound (space used < capacity + 1e-8) for flat products. The model is tied to the code by the correspondence on "
+    "component states, placements, workplace lists and their logs at every snapshot; the oracle checks all clauses incl. nested capacity on the implementation.",
+    "note": COMMON_NOTE + " PARTIAL: the run-level capacity invariant is proved for flat products only (for nested products the code checks the size of the top component against the free space, the per-placement condition is "
+    "proved and the bound on top-most components is searched); the 1e-8 space tolerance of can_put appears in the bound.",
+    "technique": "Coq proof (placement-record invariant through detach/attach on forests, set_placed_comp/tree correspondence, invariant principle for __allocate with the moved list, facility-site invariant) + model/implementation correspondence of placement fields + oracle"}
 NOT_APPLICABLE = {}
